@@ -178,6 +178,14 @@ where
                                 trace!("from source: {message:?}");
                                 match message {
                                     Message::Handshake(source) => {
+                                        if ended.load(AtomicOrdering::Acquire) {
+                                            call!(
+                                                source,
+                                                Message::Terminate,
+                                                "to source: {message:?}"
+                                            );
+                                            return;
+                                        }
                                         source_talkbacks[i].store(Some(source));
                                         let start_count =
                                             start_count.fetch_add(1, AtomicOrdering::AcqRel) + 1;
